@@ -1,0 +1,228 @@
+//go:build verif
+// +build verif
+
+// Verification hook for property C11 (build tag "verif").  It only adds
+// exported entry points that call the package's unexported functions
+// (collectFns, evalFunctions, compileExpr, (*audition).evalExpr) unchanged.
+
+package cmd
+
+import (
+	"context"
+	"fmt"
+	"sort"
+	"time"
+
+	"github.com/knz/shakespeare/pkg/crdb/log"
+	"github.com/knz/shakespeare/pkg/crdb/stop"
+)
+
+var verifC11Modes = map[string]assignMode{
+	"first":  assignFirstN,
+	"last":   assignLastN,
+	"top":    assignTopN,
+	"bottom": assignBottomN,
+}
+
+// VerifC11Collect calls the real collectFns[mode](a, n, x).
+func VerifC11Collect(
+	mode string, a []interface{}, n int, x interface{},
+) (res []interface{}, errText string, panicText string) {
+	defer func() {
+		if r := recover(); r != nil {
+			panicText = fmt.Sprintf("%v", r)
+		}
+	}()
+	am, ok := verifC11Modes[mode]
+	if !ok {
+		return nil, "", "unknown mode " + mode
+	}
+	fn := collectFns[am]
+	res, err := fn(a, n, x)
+	if err != nil {
+		errText = err.Error()
+	}
+	return res, errText, ""
+}
+
+// VerifC11Func calls the real evalFunctions[name](args...).
+func VerifC11Func(
+	name string, args []interface{},
+) (res interface{}, errText string, panicText string, known bool) {
+	defer func() {
+		if r := recover(); r != nil {
+			panicText = fmt.Sprintf("%v", r)
+		}
+	}()
+	fn, ok := evalFunctions[name]
+	if !ok {
+		return nil, "", "", false
+	}
+	res, err := fn(args...)
+	if err != nil {
+		errText = err.Error()
+	}
+	return res, errText, "", true
+}
+
+// VerifC11Evaluator evaluates expressions through the real compileExpr and
+// the real (*audition).evalExpr.
+type VerifC11Evaluator struct {
+	au      *audition
+	stopper *stop.Stopper
+}
+
+// VerifC11NewEvaluator creates an evaluator (needs VerifLogScope).
+func VerifC11NewEvaluator() *VerifC11Evaluator {
+	ctx := context.Background()
+	stopper := stop.NewStopper()
+	rep := &verifReporter{start: time.Now()}
+	au := &audition{
+		r:       rep,
+		cfg:     newConfig(),
+		stopper: stopper,
+		logger:  log.NewSecondaryLogger(ctx, nil, "audit", true, false),
+		res:     &auditionResults{},
+	}
+	return &VerifC11Evaluator{au: au, stopper: stopper}
+}
+
+// Close stops the evaluator's stopper.
+func (e *VerifC11Evaluator) Close() { e.stopper.Stop(context.Background()) }
+
+// Eval compiles src as checkExpr does and evaluates it as the audition does,
+// with vars as the current values of the variables.
+func (e *VerifC11Evaluator) Eval(
+	src string, vars map[string]interface{},
+) (res interface{}, compileErr string, evalErr string, panicText string) {
+	defer func() {
+		if r := recover(); r != nil {
+			panicText = fmt.Sprintf("%v", r)
+		}
+	}()
+	compiled, err := compileExpr(src)
+	if err != nil {
+		return nil, err.Error(), "", ""
+	}
+	e.au.st.curVals = vars
+	e.au.r.(*verifReporter).judged = nil
+	res, err = e.au.evalExpr(context.Background(), "verif", expr{src: src, compiled: compiled})
+	if err != nil {
+		evalErr = err.Error()
+	}
+	return res, "", evalErr, ""
+}
+
+// VerifC11In is one variable set (and activated) before a run of
+// processAssignments.
+type VerifC11In struct {
+	Name string
+	Val  interface{}
+}
+
+// VerifC11StepResult is what one run of processAssignments left.
+type VerifC11StepResult struct {
+	Err   string
+	Panic string
+	Vals  map[string]interface{} // every variable but t, mood, moodt (arrays copied)
+	Act   map[string]bool        // activation flag of every actor-less variable
+}
+
+// VerifC11AssignResult is everything VerifC11Assign observed.
+type VerifC11AssignResult struct {
+	ParseErr  string
+	Steps     []VerifC11StepResult
+	Watchers  map[string][]string
+	ArrayVars []string
+}
+
+func verifC11Copy(v interface{}) interface{} {
+	if a, ok := v.([]interface{}); ok {
+		out := make([]interface{}, len(a))
+		for i := range a {
+			out[i] = verifC11Copy(a[i])
+		}
+		return out
+	}
+	return v
+}
+
+// VerifC11Assign parses cfgText, builds the real audition state, and for
+// every step sets the given input variables (value + activation flag, the
+// other inputs de-activated) and calls the real processAssignments of
+// auditor's clauses.
+func VerifC11Assign(cfgText, auditor string, inputs []string, steps [][]VerifC11In) (res VerifC11AssignResult) {
+	cfg, err := verifParseString(cfgText, nil)
+	if err != nil {
+		res.ParseErr = err.Error()
+		return res
+	}
+	ctx := context.Background()
+	stopper := stop.NewStopper()
+	defer stopper.Stop(ctx)
+	collCh := make(chan collectorEvent, 65536)
+	rep := &verifReporter{start: time.Now()}
+	au := &audition{
+		r:       rep,
+		cfg:     cfg,
+		stopper: stopper,
+		logger:  log.NewSecondaryLogger(ctx, nil, "audit", true, false),
+		res:     &auditionResults{},
+		st:      makeAuditionState(cfg),
+		collCh:  collCh,
+	}
+	res.Watchers = make(map[string][]string)
+	for vn, v := range cfg.vars {
+		ws := append([]string(nil), v.watcherNames...)
+		sort.Strings(ws)
+		res.Watchers[vn.String()] = ws
+		if v.isArray {
+			res.ArrayVars = append(res.ArrayVars, vn.String())
+		}
+	}
+	sort.Strings(res.ArrayVars)
+	as, ok := au.st.auditorStates[auditor]
+	am := cfg.audience[auditor]
+	if !ok || am == nil {
+		res.ParseErr = "no such auditor: " + auditor
+		return res
+	}
+	for i, step := range steps {
+		for _, n := range inputs {
+			au.st.curActivated[varName{sigName: n}] = false
+		}
+		for _, in := range step {
+			au.st.curVals[in.Name] = in.Val
+			au.st.curActivated[varName{sigName: in.Name}] = true
+		}
+		var sr VerifC11StepResult
+		func() {
+			defer func() {
+				if r := recover(); r != nil {
+					sr.Panic = fmt.Sprintf("%v", r)
+				}
+			}()
+			if err := au.processAssignments(ctx, float64(i), as, &am.auditor); err != nil {
+				sr.Err = err.Error()
+			}
+		}()
+		for len(collCh) > 0 {
+			<-collCh
+		}
+		sr.Vals = make(map[string]interface{})
+		for k, v := range au.st.curVals {
+			if k == "t" || k == "mood" || k == "moodt" {
+				continue
+			}
+			sr.Vals[k] = verifC11Copy(v)
+		}
+		sr.Act = make(map[string]bool)
+		for vn, a := range au.st.curActivated {
+			if vn.actorName == "" {
+				sr.Act[vn.sigName] = a
+			}
+		}
+		res.Steps = append(res.Steps, sr)
+	}
+	return res
+}
